@@ -318,7 +318,7 @@ CHECKS = {
                 "returns at that time, min(remaining, cycles) of them, nothing else written (RAM digests), inactive exactly after 160 cycles, final OAM equal across partitions. "
                 "distinct_nontrivial = distinct source pages",
         "phases": [{"variant": "interp-dbg", "monitor": "c16", "shards": 16}, asan_phase("c16", variant="interp-asan")],
-        "floors": {"quick": {"evaluations": 8_000, "restarts": 3_000, "bytes-copied-and-checked": 1_500_000, "partition-sets-under-other-device-configurations": 50}, "thorough": {"evaluations": 40_000, "partition-sets-under-other-device-configurations": 50}},
+        "floors": {"quick": {"evaluations": 8_000, "restarts": 3_000, "bytes-copied-and-checked": 1_500_000, "partition-sets-under-other-device-configurations": 50, "frame-partition-sets-with-a-transfer-under-the-lcd": 10}, "thorough": {"evaluations": 40_000, "partition-sets-under-other-device-configurations": 50, "frame-partition-sets-with-a-transfer-under-the-lcd": 10}},
         "exhaustive": {"quick": False, "thorough": False},
         "assumptions": ["source values are sampled by the monitor immediately before each batch, i.e. at catch-up granularity"],
     },
@@ -375,7 +375,7 @@ CHECKS = {
                 "random sequences of complete instructions (all 512 encodings, starts near 0xFFFF) through disassemble(): count, wrapping addresses, byte groups and lengths "
                 "vs the reference length table and decoder::decode, via the Display rendering. distinct_nontrivial = distinct units (address pages, words, line chunks, sequence chunks)",
         "phases": [{"variant": "interp-dbg", "monitor": "c20", "shards": 16}, miri_phase("c20", 3000)],
-        "floors": {"quick": {"evaluations": 1_000_000, "address-spellings-parsed": 700_000, "command-lines": 1_000, "unicode-lines": 150_000, "instruction-sequences-tiled": 30_000,
+        "floors": {"quick": {"evaluations": 1_000_000, "address-spellings-parsed": 700_000, "command-lines": 1_000, "unicode-lines": 150_000, "instruction-sequences-tiled": 30_000, "tilings-of-sequences-longer-than-65536-bytes": 4,
                              "malformed-or-out-of-range-rejected": 2_000},
                    "thorough": {"evaluations": 5_000_000}},
         "exhaustive": {"quick": False, "thorough": False},
